@@ -314,7 +314,13 @@ class Runner(object):
                 self.cov["skipped_no_dump"] += 1
                 return
             del b.rec[:]
+            pre = L.extract_state(b)
             b.obj._SyncObj__loadDumpFile(clearJournal=o[1])
+            post = L.extract_state(b)
+            if o[1]:
+                # coverage only: did the received-snapshot path install or keep log and state?
+                self.cov["load_clear_kept" if (post["log"] == pre["log"] and post["lastApplied"] == pre["lastApplied"])
+                         else "load_clear_installed"] += 1
             assert ("loadFailed",) not in b.rec, "load failed: %s" % getattr(self.tok[1], "last_exc", "")[-600:]
             self.ran_since_reset = []
             self._emit({"op": "load", "clear": o[1]}, "state", self._state())
@@ -680,7 +686,7 @@ def run(ctx):
     floors = ["ev_ran", "ev_wrongVer", "ev_verChanged", "ev_blocked", "cb_ok", "cb_discarded", "setver_tooHigh",
               "setver_tooLow", "setver_queued", "dump_made", "dump_none", "op_load", "op_compact", "mode_file", "mode_user",
               "m1_checked", "m3_checked", "m4_checked", "follower_from_dump", "follower_from_log", "load_after_switch",
-              "load_enabled_gt_self"] + (["ev_unknownId"] if INCLUDE_UNKNOWN_IDS else [])
+              "load_enabled_gt_self", "load_clear_kept", "load_clear_installed"] + (["ev_unknownId"] if INCLUDE_UNKNOWN_IDS else [])
     missed = [f for f in floors if not cov.get(f)]
     if missed and not disagreements and not violations:
         res["inconclusive"] = "coverage floor missed: %s" % missed
@@ -726,4 +732,5 @@ def replay(ctx, violation):
             R = _run_script(ctx, ns, specs, rp["script"], rp["mode"], rp["seed"])
     finally:
         clock.restore()
+        ctx.cleanup()
     return {"violated": bool(R.viol), "violations": R.viol, "ops": len(rp["script"])}
